@@ -588,6 +588,10 @@ class Vector(AutoSerialize):
                 ref[src_idx[-1]] = value[array_idx]
         else:
             # For single value assignment
+            if len(idx_converted) != len(self.shape):
+                raise IndexError(
+                    f"Expected {len(self.shape)} indices to address a cell, got {len(idx_converted)}"
+                )
             if not isinstance(value, np.ndarray):
                 raise TypeError(f"Value must be a numpy array, got {type(value).__name__}")
             if value.ndim != 2 or value.shape[1] != self.num_fields:
